@@ -136,15 +136,15 @@ func loadKnown(path string) ([]knownFinding, error) {
 // ---- output ----
 
 type violationFile struct {
-	Property string   `json:"property"`
-	Kind     string   `json:"kind"` // violation | undecided
-	Rule     string   `json:"rule"`
-	RuleText string   `json:"rule_statement"`
-	Key      string   `json:"construct"`
-	Pos      string   `json:"position"`
-	Detail   string   `json:"detail"`
-	Replay   string   `json:"replay_cmd"`
-	Tier     string   `json:"tier"`
+	Property string `json:"property"`
+	Kind     string `json:"kind"` // violation | undecided
+	Rule     string `json:"rule"`
+	RuleText string `json:"rule_statement"`
+	Key      string `json:"construct"`
+	Pos      string `json:"position"`
+	Detail   string `json:"detail"`
+	Replay   string `json:"replay_cmd"`
+	Tier     string `json:"tier"`
 }
 
 // Finish writes evidence and violation files, prints verdict lines and returns the exit code.
